@@ -164,12 +164,13 @@ func verifC26NewConc(rnd *rand.Rand, kinds []string, hasRe bool, resets map[stri
 	}
 	cz.fillRes(resets)
 	// group by / tag of the tag-values query
+	// (the tag-values builders of handler.go / promql.go never set `by`)
 	for g := 0; g < n; g++ {
-		if rnd.Intn(2) == 0 {
+		if rnd.Intn(2) == 0 && cz.mode == 0 {
 			cz.by = append(cz.by, cz.tagX[g])
 		}
 	}
-	if rnd.Intn(3) == 0 {
+	if rnd.Intn(3) == 0 && cz.mode == 0 {
 		cz.by = append(cz.by, format.ShardTagIndex)
 	}
 	cz.valTag = cz.tagX[rnd.Intn(n)]
@@ -503,7 +504,7 @@ func TestVerifC26Where(t *testing.T) {
 					Note: fmt.Sprintf("sql=%q strings=%q regexes=%q tags=%v raw64=%v", sql, cz.strs, cz.res, cz.tagX, cz.raw64)})
 				continue
 			}
-			if len(res.Samples) < 3 && len(ops) >= 2 && w.hasRe {
+			if len(res.Samples) < 3 && len(ops) >= 2 && w.hasRe && len(w.want) > 0 && w.kinds[0] == "plain" && cz.mode == 0 {
 				res.Sample(map[string]any{"ops": ops, "sql": sql, "rows_evaluated": nrows, "rows_selected_abstract": len(w.want)})
 			}
 		}
